@@ -969,7 +969,8 @@ class ListBox(Widget, WidgetContainerMixin):
             0,
         )
 
-        self.shift_focus((maxcol, maxrow), rtop)
+        # a 0-row focus widget aligned to the bottom would sit below the last row
+        self.shift_focus((maxcol, maxrow), min(rtop, maxrow - 1))
 
     def _set_focus_first_selectable(self, size: tuple[int, int], focus: bool) -> None:
         """Choose the first visible, selectable widget below the current focus as the focus widget."""
@@ -1047,7 +1048,8 @@ class ListBox(Widget, WidgetContainerMixin):
             offset = maxrow - rows
         else:
             offset = (maxrow - rows) // 2
-        self.shift_focus((maxcol, maxrow), offset)
+        # a 0-row focus widget coming from above would sit below the last row
+        self.shift_focus((maxcol, maxrow), min(offset, maxrow - 1))
         return None
 
     def shift_focus(self, size: tuple[int, int], offset_inset: int) -> None:
@@ -1826,7 +1828,7 @@ class ListBox(Widget, WidgetContainerMixin):
             return None
 
         # no choices available, just shift current one
-        self.shift_focus((maxcol, maxrow), max(1 - focus_rows, row_offset))
+        self.shift_focus((maxcol, maxrow), min(max(1 - focus_rows, row_offset), maxrow - 1))
 
         # final check for pathological case where we may fall short
         middle, _top, bottom = self.calculate_visible((maxcol, maxrow), True)
